@@ -22,7 +22,7 @@ import time
 
 ROOT = os.path.normpath(os.path.join(os.path.dirname(os.path.abspath(__file__)), ".."))
 KANI_DIR = os.environ.get("VERIF_KANI_DIR") or os.path.join(ROOT, "kani")  # override only for scratch experiments
-REPO = "/repo"
+REPO = os.environ.get("VERIF_REPO") or "/repo"  # override only for sandboxed seeded-change runs
 GUARD = "--cfg rust_vmm_acpi_tables_verif"
 MEM_KB = 20_000_000  # ulimit -v per process
 
@@ -583,7 +583,7 @@ def replay_smt(prop, query, mv):
     if not mv.get("replay_rs"):
         return rdir, False, "no replay template for this query"
     open(os.path.join(rdir, "Cargo.toml"), "w").write(
-        '[package]\nname = "replay"\nversion = "0.1.0"\nedition = "2021"\n\n[dependencies]\nacpi_tables = { path = "/repo" }\n\n[workspace]\n')
+        '[package]\nname = "replay"\nversion = "0.1.0"\nedition = "2021"\n\n[dependencies]\nacpi_tables = { path = "%s" }\n\n[workspace]\n' % REPO)
     open(os.path.join(rdir, "src", "lib.rs"), "w").write("")
     open(os.path.join(rdir, "tests", "replay.rs"), "w").write(mv["replay_rs"])
     env = dict(os.environ)
@@ -878,6 +878,7 @@ def write_evidence(prop, tier, seed, cfg, results, verdicts, fns, wall, nviol, k
     }
     if broken:
         ev["coverage"]["inconclusive"] = broken
-    os.makedirs(os.path.join(ROOT, "evidence"), exist_ok=True)
-    with open(os.path.join(ROOT, "evidence", "%s.json" % prop), "w") as fo:
+    evdir = os.environ.get("VERIF_EVIDENCE_DIR") or os.path.join(ROOT, "evidence")
+    os.makedirs(evdir, exist_ok=True)
+    with open(os.path.join(evdir, "%s.json" % prop), "w") as fo:
         json.dump(ev, fo, indent=1)
